@@ -2,7 +2,7 @@
 model-checked; every fault plan of the bounded space run on the real CoordinationSystem and judged by TLC
 (Trace_Execute); (b) the controller-level exploration tree shared with C15, judged on the exit-path clauses."""
 import itertools, json, os, shutil, concurrent.futures as cf
-from . import base, tlc, coord, c15
+from . import base, tlc, coord, c15, coordtimed, conform
 
 TREE_CLAUSES = {"EndedOwnNothing", "Untouched", "HoldConsistent", "NoRaise"}
 PRIO = {"oa": 1, "ob": 2, "oc": 3}
@@ -151,8 +151,34 @@ def extra(R, tier):
         n = max(1, len(pl) // 16 + 1)
         for j in range(0, len(pl), n):
             jobs.append((res, pl[j:j + n], "b%d" % j))
-    with cf.ProcessPoolExecutor(max_workers=8) as ex:
+    coordtimed.model_check(R, tier)
+    tcs = coordtimed.configs(tier)
+    sd = base.seed()
+    with cf.ProcessPoolExecutor(max_workers=12) as ex:
+        tex = [ex.submit(coordtimed.explore_cfg, (dict(c, maxnodes=60000 if quick else 400000), 8 if quick else 10, sd + i)) for i, c in enumerate(tcs)]
+        tsim = [ex.submit(coordtimed.simulate_cfg, (c, 800 if quick else 6000, 16 if quick else 24, sd + 7 * i + 1)) for i, c in enumerate(tcs)]
         out = list(ex.map(exec_batch, jobs))
+        tex, tsim = [f.result() for f in tex], [f.result() for f in tsim]
+    kills = {}
+    for x in tex + tsim:
+        n = x.get("edges", x.get("steps", 0))
+        R.cov["traces_validated_against_impl"] += n
+        R.cov["evaluations"] += n
+        R.cov["drift"] += x["drift"]
+        for s_, w in x["fails"]:
+            R.violation(s_, w)
+        for k, v in x.get("kills", {}).items():
+            kills[k] = kills.get(k, 0) + v
+    conform.settle_audit(tex + tsim)
+    R.cov["states"] += sum(x["tlc"]["distinct"] or 0 for x in tex)
+    R.cov["timed_watchdog"] = {"explored_edges": sum(x["edges"] for x in tex), "tlc_behaviours_replayed": sum(x["behaviours"] for x in tsim),
+                               "replayed_steps": sum(x["steps"] for x in tsim), "replay_mismatch": sum(x["mismatch"] for x in tsim),
+                               "kills_by_reason_in_tree": kills, "configs": len(tcs)}
+    if not kills.get("starvation") or not kills.get("timeout"):
+        raise base.MachineryError("timed exploration reached no starvation/timeout kill: %s" % kills)
+    smp = next((x["sample"] for x in tex if x.get("sample")), None)
+    if smp:
+        R.sample({"timed_watchdog_kill": smp}, cap=8)
     tot = 0
     for x in out:
         tot += x["n"]
@@ -172,7 +198,9 @@ def extra(R, tier):
     R.cov["execute_operation_runs"] = tot
     R.cov["rule"] += ("; plus every fault plan of execute_operation (request lists <= 3 over 2-3 resources incl. repeats, pre-owners, preemptable sets, "
                       "priority, failing/raising checkpoint per phase, work ok/raise/kill/shutdown/nested-preemptor, validate none/true/false/raise; "
-                      "sampled when the space exceeds the tier budget) run on the real CoordinationSystem (every fourth plan through IntegratedCell.execute) and judged by TLC")
+                      "sampled when the space exceeds the tier budget) run on the real CoordinationSystem (every fourth plan through IntegratedCell.execute) and judged by TLC; plus CoordTimed.tla (phases, ticks, "
+                      "watchdog timeouts: total time / starvation / no progress, exempt operations, manual kill) model-checked, the real controller + "
+                      "Watchdog explored breadth-first under the virtual clock and walked by Trace_CoordTimed, and TLC -simulate behaviours of CoordTimed replayed")
 
 
 def run(tier):
